@@ -253,6 +253,63 @@ func guardOK(rf rowFx, ref wordRef) string {
 	case "cmp":
 		m := ref.core[:strings.Index(ref.core, "(")]
 		ones, clears := find("SetOne"), find("Clear")
+		if len(ones) == 0 && len(clears) == 0 {
+			// the `if cond {SetOne} else {Clear}` tail extracted into a private helper that is handed the comparison
+			for _, s := range eng.Sites(fn) {
+				h := s.Static()
+				if h == nil || h.Pkg != fn.Pkg || h.Blocks == nil || token.IsExported(h.Name()) {
+					continue
+				}
+				var prm *ssa.Parameter
+				for i, a := range s.Common().Args {
+					if call, isC := a.(*ssa.Call); isC && strings.HasSuffix(eng.CallName(&call.Call), "uint256.Int)."+m) && i < len(h.Params) {
+						prm = h.Params[i]
+					}
+				}
+				if prm == nil {
+					continue
+				}
+				var hOnes, hClears []*ssa.Call
+				for _, hs := range eng.Sites(h) {
+					if call, ok := hs.Instr.(*ssa.Call); ok {
+						if strings.HasSuffix(hs.Name(), "uint256.Int).SetOne") {
+							hOnes = append(hOnes, call)
+						}
+						if strings.HasSuffix(hs.Name(), "uint256.Int).Clear") {
+							hClears = append(hClears, call)
+						}
+					}
+				}
+				pol := func(in ssa.Instruction) (bool, bool) {
+					for _, cd := range eng.CondsAt(in) {
+						if cd.V == ssa.Value(prm) {
+							return true, cd.True
+						}
+					}
+					return false, false
+				}
+				// the word the helper overwrites is the one left on the stack (peek), not a popped copy
+				var dst *ssa.Parameter
+				for i, a := range s.Common().Args {
+					if strings.Contains(eng.Desc(a), "peek(") && i < len(h.Params) && h.Params[i] != prm {
+						dst = h.Params[i]
+					}
+				}
+				if dst == nil || len(hOnes) != 1 || len(hClears) != 1 || hOnes[0].Call.Args[0] != ssa.Value(dst) || hClears[0].Call.Args[0] != ssa.Value(dst) {
+					return "helper " + h.Name() + " is not handed the stack's top word (peek) as the word it sets/clears"
+				}
+				if len(hOnes) != 1 || len(hClears) != 1 {
+					return fmt.Sprintf("helper %s: expected exactly one SetOne and one Clear, found %d/%d", h.Name(), len(hOnes), len(hClears))
+				}
+				if f, p := pol(hOnes[0]); !f || !p {
+					return "helper " + h.Name() + ": SetOne is not on the true edge of the comparison it is handed"
+				}
+				if f, p := pol(hClears[0]); !f || p {
+					return "helper " + h.Name() + ": Clear is not on the false edge of the comparison it is handed"
+				}
+				return ""
+			}
+		}
 		if len(ones) != 1 || len(clears) != 1 {
 			return fmt.Sprintf("expected exactly one SetOne and one Clear, found %d/%d", len(ones), len(clears))
 		}
